@@ -32,9 +32,10 @@ type RulesParams struct {
 	// C12: which byte of the stored operand to flip (relative, modulo its length) and the replacement
 	FlipAt   int    `json:"flip_at"`
 	FlipWith string `json:"flip_with"`
+	EditMode string `json:"edit_mode"` // flip | drop-last | append | empty
 }
 
-var storedOperandPool = []string{"old", `foo\"@rx bar`, `a\" \x5cb`, `x$`, `(?i)^abc`, `\x5c\"`, `a b  c`, `[\"'` + "`" + `]+`, `!@rx `, ``}
+var storedOperandPool = []string{"old", "ARGS", `\\d+`, "S", `foo\"@rx bar`, `a\" \x5cb`, `x$`, `(?i)^abc`, `\x5c\"`, `a b  c`, `[\"'` + "`" + `]+`, `!@rx `, ``}
 
 func genRules(t *rapid.T, tier string) (*World, any) {
 	w := NewWorld()
@@ -48,6 +49,21 @@ func genRules(t *rapid.T, tier string) (*World, any) {
 	if chance(t, 25, "nofinal") {
 		opts.NoFinalNL = true
 		feat["no-final-newline"] = true
+	}
+	if chance(t, 40, "variety") {
+		for i := 0; i < 24; i++ {
+			opts.Vars = append(opts.Vars, drawInt(t, 0, 5, "var"))
+			tr := 0
+			if chance(t, 25, "trailing") {
+				tr = drawInt(t, 1, 3, "ntrail")
+			}
+			opts.Trailing = append(opts.Trailing, tr)
+		}
+		for i := 0; i < 6; i++ {
+			opts.Between = append(opts.Between, drawInt(t, 0, 2, "between"))
+		}
+		opts.Tabs = chance(t, 20, "tabs")
+		feat["line-variety"] = true
 	}
 	rf := &RuleFile{Path: p.RulesPath}
 	nr := drawInt(t, 1, 5, "nrules")
@@ -155,6 +171,7 @@ func genRules(t *rapid.T, tier string) (*World, any) {
 	}
 	p.FlipAt = drawInt(t, 0, 1000, "flipat")
 	p.FlipWith = pick(t, []string{"#", "Z", "~", "0"}, "flipwith")
+	p.EditMode = pick(t, []string{"flip", "flip", "drop-last", "append", "empty"}, "editmode")
 	p.Features = sortedKeys(feat)
 	return w, p
 }
@@ -300,16 +317,36 @@ func evalC12(sc *Scenario, sim *Sim) ([]Violation, bool, string) {
 			if edited[pos] == repl {
 				repl = '%'
 			}
-			// keep the line structure intact: never touch or create quote / backslash / newline bytes
-			if edited[pos] == '"' || edited[pos] == '\\' || edited[pos] == '\n' || edited[pos] == '\r' {
-				continue
+			end := tg.Start + len(g.Stdout)
+			switch p.EditMode {
+			case "drop-last":
+				// the stored operand becomes a proper prefix of the generated regex
+				if len(g.Stdout) < 2 || edited[end-1] == '"' || edited[end-1] == '\\' || edited[end-2] == '\\' {
+					continue
+				}
+				edited = append(edited[:end-1:end-1], after1[end:]...)
+				pos = end - 1
+			case "append":
+				if edited[end-1] == '\\' {
+					continue
+				}
+				edited = append(append(append([]byte{}, after1[:end]...), repl), after1[end:]...)
+				pos = end
+			case "empty":
+				edited = append(append([]byte{}, after1[:tg.Start]...), after1[end:]...)
+				pos = tg.Start
+			default:
+				// keep the line structure intact: never touch or create quote / backslash / newline bytes
+				if edited[pos] == '"' || edited[pos] == '\\' || edited[pos] == '\n' || edited[pos] == '\r' {
+					continue
+				}
+				edited[pos] = repl
 			}
-			edited[pos] = repl
 			sb.Write(p.RulesPath, edited)
 			c1 := sb.Run(Step{Argv: []string{"regex", "compare", tg.Arg}, Cwd: "crs", Plan: p.Plans[1]})
 			if c1.Exit == 0 || !strings.Contains(string(c1.Stdout), "has changed!") {
-				add("edit-then-compare", "single-text", fmt.Sprintf("one byte of the stored operand was edited but compare (text, single rule) exits %d", c1.Exit),
-					fmt.Sprintf("edited byte %d to %q\nstdout: %q", pos-tg.Start, string(repl), clip(c1.Stdout)))
+				add("edit-then-compare", "single-text:"+p.EditMode, fmt.Sprintf("the stored operand was edited (%s) but compare (text, single rule) exits %d", p.EditMode, c1.Exit),
+					fmt.Sprintf("edit at byte %d (%q)\nstdout: %q", pos-tg.Start, string(repl), clip(c1.Stdout)))
 			}
 			c2 := sb.Run(Step{Argv: []string{"-o", "github", "regex", "compare", tg.Arg}, Cwd: "crs", Plan: p.Plans[2]})
 			if c2.Exit == 0 {
@@ -359,7 +396,7 @@ func init() {
 	})
 	register(&Property{
 		ID: "C12", Level: "exploration",
-		Rule: rule + "Histories: update T -> compare T (must print 'has not changed', exit 0; `-o github compare --all` exit 0); update T -> update T (byte no-op); stored span = generate's stdout; update T -> flip one byte inside the stored span -> compare (text single rule: exit != 0 and 'has changed!'; -o github single and --all: exit != 0; text --all prints 'has changed!'). Non-trivial = update succeeded; distinct = distinct (world, flipped byte).",
+		Rule: rule + "Histories: update T -> compare T (must print 'has not changed', exit 0; `-o github compare --all` exit 0); update T -> update T (byte no-op); stored span = generate's stdout; update T -> edit the stored span (flip one byte, drop the last byte, append a byte, empty it) -> compare (text single rule: exit != 0 and 'has changed!'; -o github single and --all: exit != 0; text --all prints 'has changed!'). Non-trivial = update succeeded; distinct = distinct (world, flipped byte).",
 		Gen:  genRules, Eval: evalC12,
 		QuickChecks: 300, ThoroughChecks: 6000, Timeout: 20 * time.Second,
 		Assumptions: []string{"the edited byte is never a quote, backslash or line terminator, so the line keeps the CRS layout", "for the --all variants only the target's assembly file is left in place"},
